@@ -124,7 +124,12 @@ Fixpoint r_inl (i : inl) : list xml :=
   match i with
   | IRun t => [r_run t]
   | ITab => [el W_r [el W_tab []]]
-  | IBreak => [el W_r [el W_br []]]
+  | IBreak BrLine => [el W_r [el W_br []]]
+  | IBreak BrPage => [el W_r [Elem W_br [(s "w:type", s "page")] [] [] []]]
+  | IBreak BrColumn => [el W_r [Elem W_br [(s "w:type", s "column")] [] [] []]]
+  | IBreak BrWrap => [el W_r [Elem W_br [(s "w:type", s "textWrapping")] [] [] []]]
+  | IBreak BrCr => [el W_r [el W_cr []]]
+  | IMark => [el W_r [el W_lastRenderedPageBreak []]]
   | IDel t => [el W_del [r_del_run t]]
   | IMovedFrom t => [el W_moveFrom [r_run t]]
   | IComment _ => [el W_commentRangeStart []; el W_r [el W_commentReference []]]
@@ -201,7 +206,7 @@ Definition docx_text_direct (ws : N -> bool) (d : doc) : str := full_text_of_bod
    (Props.v: C02_docx_*_refuted) *)
 Fixpoint inl_sup (i : inl) : bool :=
   match i with
-  | IRun _ | ITab | IBreak | IDel _ | IComment _ => true
+  | IRun _ | ITab | IBreak _ | IMark | IDel _ | IComment _ => true
   | IMovedFrom _ => false          (* the moved-from copy is emitted *)
   | IWrap _ l => forallb inl_sup l
   | IBox _ _ => false              (* merged with the host paragraph / dropped (VML) / duplicated in cells *)
